@@ -34,6 +34,14 @@ package importer
 
 //@ scan[C09.importer.cache.users] C09 fieldwriters LocalImporter.codeCache: NewLocalImporter Import
 
+// C07: an importer belongs to the VM's configuration and survives resetForNewCode, so whatever it remembers is carried
+// from one run into the next. Its state is the code cache (successful compilations, keyed by name: C14) and the
+// immutable options - nothing else. A failed import leaves no trace: the error of a run whose context was cancelled
+// while a module was being parsed must not be answered to a later run with a live context (seed C07e added a table
+// of failed imports). Inventory of the fields; a new one needs a disposition here.
+//@ scan[C07.importer.state.local] C07 structfields LocalImporter: globalNames codeCache sourceDir extensions mutex
+//@ scan[C07.importer.state.fs] C07 structfields FSImporter: globalNames codeCache sourceFS extensions mutex
+
 // Importers do not touch the VM's mutexes or registers, nor its table of loaded modules (an unexported field of the
 // VM; assumed for every implementation).
 //@ func (Importer).Import
